@@ -1,4 +1,5 @@
 //! axv — conformance harness binding the TLA+ specifications in /verif/spec to AxmosDB.
+mod crash;
 mod dbdrv;
 mod eng;
 mod probe;
@@ -18,6 +19,8 @@ fn main() {
         "wal" => wal::main(&rest),
         "probe" => probe::main(&rest),
         "db" => dbdrv::main(&rest),
+        "crash" => crash::main(&rest),
+        "reopen-child" => crash::child(&rest),
         other => {
             eprintln!("unknown driver {other}");
             2
